@@ -80,6 +80,12 @@ def short_table_of(f, R, src):
     out = []
     for n in walk_no_nested(f.node):
         if isinstance(n, ast.Assign) and isinstance(n.targets[0], ast.Subscript) and isinstance(n.targets[0].value, ast.Name) and \
+                isinstance(n.value, ast.ListComp) and ast.unparse(n.targets[0].slice).endswith('.request_id'):
+            # the table written in place:  D[req.request_id] = [<short list> for pth in src]
+            g = n.value.generators
+            if len(g) == 1 and isinstance(g[0].iter, ast.Name) and g[0].iter.id == src and not g[0].ifs:
+                out.append(n.targets[0].value.id)
+        if isinstance(n, ast.Assign) and isinstance(n.targets[0], ast.Subscript) and isinstance(n.targets[0].value, ast.Name) and \
                 isinstance(n.value, ast.Name) and ast.unparse(n.targets[0].slice).endswith('.request_id'):
             t = n.value.id
             body = getattr(n, '_parent').body
